@@ -3,7 +3,8 @@
  * open()/close() calls redirected to scripted stubs and its one json_tokener_parse_ex
  * call routed through a recording wrapper (no source hook).
  *
- * schedule = '-' | item(,item)* ; item = E (the call fails with EIO) | <n> | <n>*<k>
+ * schedule = '-' | item(,item)* ; item = E (the call fails with EIO) | E:<errno name> (fails with
+ *   that errno: EINTR, EAGAIN, EBADF, ENOSPC, EPIPE, ..., "0" = errno left untouched) | <n> | <n>*<k>
  *   the k-th call transfers min(n, requested, left) bytes; after the listed entries every
  *   further call transfers everything requested.
  * lines:
@@ -11,7 +12,8 @@
  *      -> W <rc> <msg> <writes> <delivered> <ser> <leak>
  *   R <hexdoc> <depth|fd> <sched>          json_object_from_fd_ex (depth "fd": json_object_from_fd)
  *      -> R <result|NULL> <msg> <reads> <pcalls> <pdepth> <pbuf> <ref|NULL|NONEW> <referr> <leak>
- *   F R <open> <hexdoc> <sched>            json_object_from_file, open() succeeds iff <open>=1
+ *   F R <open> <hexdoc> <sched>            json_object_from_file; <open> = 1: open() succeeds, 0: fails
+ *                                          with ENOENT, an errno name: fails with that errno
  *      -> FR <the R fields up to referr> <opens> <closes> <leak>
  *   F W|w <open> <tree> <flags> <sched> <serhex>   json_object_to_file_ext | json_object_to_file
  *      -> FW <rc> <msg> <writes> <delivered> <ser> <opens> <closes> <leak>
@@ -64,18 +66,40 @@ static struct {
 	int devoverflow;
 	const char *sched; long rep_n, rep_left;
 	long reads, writes, opens, closes, badfd;
-	int open_ok;
+	int open_ok, open_errno, fail_errno;
 	long pcalls; int pdepth; unsigned char *pbuf; size_t plen;
 } vf;
 
-/* next schedule entry: -1 error, -2 exhausted (transfer all), else the size */
+static int errno_of(const char *name, size_t n)
+{
+	static const struct { const char *n; int e; } tab[] = {
+		{"EIO", EIO}, {"EINTR", EINTR}, {"EAGAIN", EAGAIN}, {"EBADF", EBADF}, {"ENOSPC", ENOSPC},
+		{"EPIPE", EPIPE}, {"EACCES", EACCES}, {"EMFILE", EMFILE}, {"ENOENT", ENOENT}, {"EISDIR", EISDIR},
+		{"EFBIG", EFBIG}, {"EDQUOT", EDQUOT}, {"EINVAL", EINVAL}, {"ENOMEM", ENOMEM}, {"0", 0}};
+	size_t i;
+	for (i = 0; i < sizeof(tab) / sizeof(tab[0]); i++)
+		if (strlen(tab[i].n) == n && memcmp(tab[i].n, name, n) == 0) return tab[i].e;
+	return EIO;
+}
+
+/* next schedule entry: -1 error (vf.fail_errno set), -2 exhausted (transfer all), else the size */
 static long sched_next(void)
 {
 	char *e;
 	long n, k = 1;
 	if (vf.rep_left > 0) { vf.rep_left--; return vf.rep_n; }
 	if (!vf.sched || !*vf.sched || *vf.sched == '-') return -2;
-	if (*vf.sched == 'E') { vf.sched++; if (*vf.sched == ',') vf.sched++; return -1; }
+	if (*vf.sched == 'E') {
+		vf.sched++;
+		vf.fail_errno = EIO;
+		if (*vf.sched == ':') {
+			size_t n = strcspn(++vf.sched, ",");
+			vf.fail_errno = errno_of(vf.sched, n);
+			vf.sched += n;
+		}
+		if (*vf.sched == ',') vf.sched++;
+		return -1;
+	}
 	n = strtol(vf.sched, &e, 10);
 	if (*e == '*') k = strtol(e + 1, &e, 10);
 	if (*e == ',') e++;
@@ -92,7 +116,7 @@ static ssize_t vf_read(int fd, void *buf, size_t count)
 	vf.reads++;
 	if (fd != THE_FD) vf.badfd++;
 	x = sched_next();
-	if (x == -1) { errno = EIO; return -1; }
+	if (x == -1) { if (vf.fail_errno) errno = vf.fail_errno; return -1; }
 	n = (x == -2) ? count : ((size_t)(x < 0 ? 0 : x) < count ? (size_t)(x < 0 ? 0 : x) : count);
 	if (n > avail) n = avail;
 	if (n) memcpy(buf, vf.data + vf.pos, n);
@@ -109,7 +133,7 @@ static ssize_t vf_write(int fd, const void *buf, size_t count)
 	vf.writes++;
 	if (fd != THE_FD) vf.badfd++;
 	x = sched_next();
-	if (x == -1) { errno = EIO; return -1; }
+	if (x == -1) { if (vf.fail_errno) errno = vf.fail_errno; return -1; }
 	n = (x == -2) ? count : ((size_t)(x < 0 ? 0 : x) < count ? (size_t)(x < 0 ? 0 : x) : count);
 	if (vf.devlen + n > vf.devcap) { vf.devoverflow = 1; n = vf.devcap - vf.devlen; }
 	if (n) memcpy(vf.dev + vf.devlen, buf, n);
@@ -121,7 +145,7 @@ static int vf_open(const char *path, int flags, ...)
 {
 	(void)path; (void)flags;
 	vf.opens++;
-	if (!vf.open_ok) { errno = ENOENT; return -1; }
+	if (!vf.open_ok) { errno = vf.open_errno; return -1; }
 	return THE_FD;
 }
 
@@ -163,6 +187,7 @@ static void vf_reset(const char *sched)
 	memset(&vf, 0, sizeof(vf));
 	vf.sched = sched;
 	_last_err[0] = 0;
+	errno = 0;      /* an "E:0" failure leaves this value in place: deterministic per line */
 }
 
 static struct json_object *tree_of(const char *s, int *bad)
@@ -175,7 +200,14 @@ static struct json_object *tree_of(const char *s, int *bad)
 }
 
 /* ---- W / F W ---- */
-static void do_write(int file, char which, int open_ok, const char *tree, int flags, const char *sched, long live0)
+static void set_open(const char *tok)
+{
+	vf.open_ok = strcmp(tok, "1") == 0;
+	vf.open_errno = strcmp(tok, "0") == 0 ? ENOENT : errno_of(tok, strlen(tok));
+	if (!vf.open_errno) vf.open_errno = ENOENT;
+}
+
+static void do_write(int file, char which, const char *open_tok, const char *tree, int flags, const char *sched, long live0)
 {
 	int bad = 0, rc, msg;
 	struct json_object *o = tree_of(tree, &bad);
@@ -188,7 +220,7 @@ static void do_write(int file, char which, int open_ok, const char *tree, int fl
 	ser = (unsigned char *)malloc(serlen + 1);
 	memcpy(ser, s0 ? s0 : "", serlen);
 	vf_reset(sched);
-	vf.open_ok = open_ok;
+	set_open(open_tok);
 	vf.devcap = 2 * serlen + 64;
 	vf.dev = (unsigned char *)malloc(vf.devcap);
 	if (!file) rc = json_object_to_fd(THE_FD, o, flags);
@@ -209,7 +241,7 @@ static void do_write(int file, char which, int open_ok, const char *tree, int fl
 }
 
 /* ---- R / F R ---- */
-static void do_read(int file, int open_ok, const char *hex, const char *depth_s, const char *sched, long live0)
+static void do_read(int file, const char *open_tok, const char *hex, const char *depth_s, const char *sched, long live0)
 {
 	size_t n;
 	unsigned char *doc = unhex(hex, &n);
@@ -220,7 +252,7 @@ static void do_read(int file, int open_ok, const char *hex, const char *depth_s,
 	struct json_tokener *t2;
 	int msg;
 	vf_reset(sched);
-	vf.open_ok = open_ok;
+	set_open(open_tok);
 	vf.data = doc; vf.len = n;
 	if (file) o = json_object_from_file("/nonexistent/verif-c20/in.json");
 	else if (use_fd) o = json_object_from_fd(THE_FD);
@@ -265,22 +297,22 @@ void run_case(char *rest)
 	if (strcmp(op, "W") == 0) {
 		char *tree = strtok_r(NULL, " ", &save), *fl = strtok_r(NULL, " ", &save), *sc = strtok_r(NULL, " ", &save);
 		if (!tree || !fl || !sc) { printf("BADLINE"); return; }
-		do_write(0, 'W', 1, tree, atoi(fl), sc, live0);
+		do_write(0, 'W', "1", tree, atoi(fl), sc, live0);
 	} else if (strcmp(op, "R") == 0) {
 		char *hex = strtok_r(NULL, " ", &save), *d = strtok_r(NULL, " ", &save), *sc = strtok_r(NULL, " ", &save);
 		if (!hex || !d || !sc) { printf("BADLINE"); return; }
-		do_read(0, 1, hex, d, sc, live0);
+		do_read(0, "1", hex, d, sc, live0);
 	} else if (strcmp(op, "F") == 0) {
 		char *which = strtok_r(NULL, " ", &save), *op_ok = strtok_r(NULL, " ", &save);
 		if (!which || !op_ok) { printf("BADLINE"); return; }
 		if (which[0] == 'R') {
 			char *hex = strtok_r(NULL, " ", &save), *sc = strtok_r(NULL, " ", &save);
 			if (!hex || !sc) { printf("BADLINE"); return; }
-			do_read(1, atoi(op_ok), hex, "-1", sc, live0);
+			do_read(1, op_ok, hex, "-1", sc, live0);
 		} else {
 			char *tree = strtok_r(NULL, " ", &save), *fl = strtok_r(NULL, " ", &save), *sc = strtok_r(NULL, " ", &save);
 			if (!tree || !fl || !sc) { printf("BADLINE"); return; }
-			do_write(1, which[0], atoi(op_ok), tree, atoi(fl), sc, live0);
+			do_write(1, which[0], op_ok, tree, atoi(fl), sc, live0);
 		}
 	} else if (strcmp(op, "S") == 0) {
 		char *tree = strtok_r(NULL, " ", &save), *fl = strtok_r(NULL, " ", &save);
